@@ -198,7 +198,15 @@ func (c *Ctx) RuleUpd() []*Result {
 				if sf == nil || load.ShortPkg(load.FnPkgPath(sf)) != "internal/updater" || len(call.Call.Args) == 0 || load.ShortPkg(load.FnPkgPath(fn)) == "internal/updater" {
 					return
 				}
-				if call.Call.Args[0].Type().Underlying().String() != "string" {
+				// the version is the first text argument (a context or other options may stand in front of it)
+				vi := -1
+				for i, a := range call.Call.Args {
+					if a.Type().Underlying().String() == "string" {
+						vi = i
+						break
+					}
+				}
+				if vi < 0 {
 					return
 				}
 				version.Instances++
@@ -273,7 +281,7 @@ func (c *Ctx) RuleUpd() []*Result {
 						bad = fmt.Sprintf("a value of unknown origin (%T)", v)
 					}
 				}
-				walk(call.Call.Args[0], fn, 0)
+				walk(call.Call.Args[vi], fn, 0)
 				if bad == "" && loads > 0 {
 					version.ok(key, c.P.InstrPos(call), "the version field of the root command, read when the command runs")
 				} else {
